@@ -78,6 +78,7 @@ func loadKnownFindings() *KnownFindings {
 var verbose bool
 var activeKF *KnownFindings
 var activeProp string
+var activeRepo = "/repo"
 
 type checkResult struct {
 	vcs        []*VC
@@ -138,6 +139,7 @@ func cmdCheck(args []string) int {
 	}
 	activeKF = loadKnownFindings()
 	activeProp = prop
+	activeRepo = repo
 	work, _ := os.MkdirTemp("", "rvc-"+prop+"-")
 	if !keep {
 		defer os.RemoveAll(work)
@@ -413,7 +415,7 @@ func report(prop, tier string, seed int, ip *InvProp, res *checkResult, partial 
 			t0 := time.Now()
 			cmd := exec.Command("sh", "-c", bc.Cmd)
 			cmd.Dir = verifDir
-			cmd.Env = append(os.Environ(), "GOFLAGS=-mod=mod", "GOPROXY=off", "GOSUMDB=off", "GOTOOLCHAIN=local")
+			cmd.Env = append(os.Environ(), "GOFLAGS=-mod=mod", "GOPROXY=off", "GOSUMDB=off", "GOTOOLCHAIN=local", "RVC_REPO="+activeRepo)
 			out, err := cmd.CombinedOutput()
 			cases := 0
 			for _, l := range strings.Split(string(out), "\n") {
